@@ -68,7 +68,7 @@ class HostUpper:
 
 
 def gen_payload(tape, tag: bytes, i: int) -> bytes:
-    n = (1, 2, 3, 5, 8, 13, 20, 40, 80, 120)[tape.draw(10, "pl.len")]
+    n = (1, 2, 3, 5, 8, 13, 20, 40, 80, 120, 125, 126, 160, 200)[tape.draw(14, "pl.len")]  # (+3 bytes of tag and index: up to 203, crossing 128)
     mode = tape.draw(3, "pl.mode")
     if mode == 0:
         body = bytes((i * 7 + j) & 0xFF for j in range(n))
